@@ -56,6 +56,23 @@ def wave_job(j):
             tname.add(type(r).__name__)
             out.append(fl(r))
         return {'values': out, 'type': sorted(tname), 'unit': None, 'input_unchanged': True, 'shape': None}
+    if kind in ('int_scalar', 'npint32_scalar', 'npint64_scalar'):
+        conv = {'int_scalar': int, 'npint32_scalar': np.int32, 'npint64_scalar': np.int64}[kind]
+        out, tname = [], set()
+        for v in vals:
+            r = f(conv(int(v)))
+            tname.add(type(r).__name__)
+            out.append(fl(r))
+        return {'values': out, 'type': sorted(tname), 'unit': None, 'input_unchanged': True, 'shape': None}
+    if kind in ('int32_array', 'int64_array', 'f32_array'):
+        dt = {'int32_array': np.int32, 'int64_array': np.int64, 'f32_array': np.float32}[kind]
+        arr = np.array(vals, dtype=dt)
+        keep = arr.copy()
+        r = f(arr)
+        ref = f(arr.astype('d'))        # the same wavelengths as float64
+        return {'values': fls(r), 'reference_f64': fls(ref), 'type': [type(r).__name__], 'dtype': str(getattr(r, 'dtype', None)),
+                'unit': None, 'input_unchanged': bool(np.array_equal(keep, arr) and arr.dtype == dt),
+                'shape': list(np.shape(r)), 'input_as_float': fls(arr)}
     if kind == 'quantity_scalar':
         out, tname, units = [], set(), set()
         for v in vals:
@@ -183,8 +200,9 @@ def run_filter(flux, wave, mask, toair):
 
 def filter_job(j):
     nT, nx = j['nT'], j['nx']
-    flux = np.array(j['flux'], dtype='d').reshape(nT, nx)
-    flux2 = np.array(j['flux2'], dtype='d').reshape(nT, nx)
+    dt = j.get('dtype', 'd')
+    flux = np.array(j['flux'], dtype=dt).reshape(nT, nx)
+    flux2 = np.array(j['flux2'], dtype=dt).reshape(nT, nx)
     loglam = np.array([[l0 + dl * k for k in range(nx)] for l0, dl in zip(j['loglam0'], j['dloglam'])], dtype='d')
     if j['wave'] == 'waveimg':
         wave = {'kind': 'waveimg', 'img': 10.0 ** loglam}
@@ -200,13 +218,13 @@ def filter_job(j):
     r1, rec = run_filter(flux, wave, mask, toair)
     unchanged = bool(np.array_equal(keep, flux))
     r2, _ = run_filter(flux2, wave, mask, toair)
-    r3, _ = run_filter(a * flux + b * flux2, wave, mask, toair)
-    rc, _ = run_filter(np.full((nT, nx), c, dtype='d'), wave, mask, toair)
+    r3, _ = run_filter((a * flux + b * flux2).astype(dt), wave, mask, toair)
+    rc, _ = run_filter(np.full((nT, nx), c, dtype=dt), wave, mask, toair)
     out = {'res': [fls(r) for r in r1], 'res2': [fls(r) for r in r2], 'res_lin': [fls(r) for r in r3],
-           'res_const': [fls(r) for r in rc], 'input_unchanged': unchanged, 'shape': list(r1.shape)}
+           'res_const': [fls(r) for r in rc], 'input_unchanged': unchanged, 'shape': list(r1.shape), 'res_dtype': str(r1.dtype)}
     if mask is not None:
         junk = flux.copy()
-        junk[mask != 0] = np.array(j['junk'], dtype='d')[: int((mask != 0).sum())] if j.get('junk') else 1.0e6
+        junk[mask != 0] = np.array(j['junk'], dtype=dt)[: int((mask != 0).sum())] if j.get('junk') else 1.0e6
         rj, _ = run_filter(junk, wave, mask, toair)
         out['res_junk'] = [fls(r) for r in rj]
         out['good_per_trace'] = [int((mask[t] == 0).sum()) for t in range(nT)]
